@@ -20,6 +20,7 @@ Definition E_FLAG_INDEX : nat := 40.     (* "difficulty flag index out of range"
 Definition E_FLAG_DEF : nat := 41.       (* "invalid difficulty flag definition" *)
 Definition E_UNKNOWN_FLAG : nat := 42.   (* "unknown difficulty flag" *)
 Definition E_BAD_CHAR : nat := 43.       (* "invalid character in difficulty string" *)
+Definition E_FLAG_NAME_TAKEN : nat := 44. (* "difficulty flag name is already the name of flag N" (fix c14-flag-name-repoint) *)
 
 Definition NUM_BITS : nat := gen_num_bits.
 Definition ALL_BITS : N := 2 ^ N.of_nat NUM_BITS - 1.
@@ -62,6 +63,14 @@ Definition define_flag (fd : flagdefs) (name : chr) (index : nat) (enable : bool
              fd_by_name := (name, index) :: fd_by_name fd;
              fd_by_flag := (index, name) :: fd_by_flag fd |}.
 
+(* a definition that gives bit [i] the name [c] does not re-point [c] if no *other* bit currently prints as [c] *)
+Definition no_repointb (fd : flagdefs) (c : chr) (i : nat) : bool :=
+  forallb (fun b => Nat.eqb b i || match by_flag fd b with Some c' => negb (c' =? c) | None => true end) (seq 0 NUM_BITS).
+
+(* present in the source iff gen_repoint_check (read by gen/diffflags.py) *)
+Definition repoint_guard (fd : flagdefs) (c : chr) (i : nat) (k : outcome flagdefs) : outcome flagdefs :=
+  if gen_repoint_check && negb (no_repointb fd c i) then Err E_FLAG_NAME_TAKEN else k.
+
 (* a `!difficulty_flags` line of a mapfile: `<index> <two characters>` *)
 Definition define_flag_from_mapfile (fd : flagdefs) (index : Z) (str : list chr) : outcome flagdefs :=
   if negb ((0 <=? index)%Z && (index <? Z.of_nat NUM_BITS)%Z) then Err E_FLAG_INDEX
@@ -70,8 +79,8 @@ Definition define_flag_from_mapfile (fd : flagdefs) (index : Z) (str : list chr)
            (* str.len() != 2 (bytes): both characters must be single-byte *)
            if negb ((name <? 128) && (pm <? 128)) then Err E_FLAG_DEF
            else if negb (is_flag_char name) then Err E_FLAG_DEF
-           else if pm =? CH_MINUS then define_flag fd name (Z.to_nat index) false
-           else if pm =? CH_PLUS then define_flag fd name (Z.to_nat index) true
+           else if pm =? CH_MINUS then repoint_guard fd name (Z.to_nat index) (define_flag fd name (Z.to_nat index) false)
+           else if pm =? CH_PLUS then repoint_guard fd name (Z.to_nat index) (define_flag fd name (Z.to_nat index) true)
            else Err E_FLAG_DEF
        | _ => Err E_FLAG_DEF
        end.
@@ -144,17 +153,13 @@ Definition consistentb (fd : flagdefs) : bool :=
                     | Some c => is_flag_char c && match by_name fd c with Some b' => Nat.eqb b' b | None => false end
                     | None => false end) (seq 0 NUM_BITS).
 
-(* a definition that gives bit [i] the name [c] does not re-point [c] if no *other* bit currently prints as [c] *)
 Definition no_repoint (fd : flagdefs) (c : chr) (i : nat) : Prop :=
   forall b, (b < NUM_BITS)%nat -> b <> i -> by_flag fd b <> Some c.
-Definition no_repointb (fd : flagdefs) (c : chr) (i : nat) : bool :=
-  forallb (fun b => Nat.eqb b i || match by_flag fd b with Some c' => negb (c' =? c) | None => true end) (seq 0 NUM_BITS).
-
 (* side conditions on the generated table that the proofs rely on *)
 Fixpoint nodupb (l : list N) : bool :=
   match l with [] => true | x :: r => negb (existsb (N.eqb x) r) && nodupb r end.
 Definition table_ok : bool :=
-  gen_define_flag_recognised &&
+  gen_define_flag_recognised && gen_elaborate_recognised &&
   Nat.leb 1 gen_num_bits && Nat.leb gen_num_bits 32 &&
   Nat.eqb (length gen_default_names) gen_num_bits &&
   forallb is_flag_char gen_default_names && nodupb gen_default_names &&
@@ -202,9 +207,21 @@ Fixpoint orb_lists (a b : list bool) : list bool :=
   | [], l | l, [] => l
   end.
 
-(* DiffSwitchMeta::update over the top-level arguments only *)
+(* DiffSwitchMeta::update over the arguments: the explicit positions of the top-level switches, and --
+   iff gen_nested_meta (fix c14-nested-diff-switch, read by gen/diffflags.py) -- of the switches nested
+   inside their cases *)
+Fixpoint expl_arg_deep (a : arg) : list bool :=
+  match a with AVal _ => [] | ASw cs => orb_lists (explicit_list cs) (expl_cases_deep cs) end
+with expl_cases_deep (cs : cases) : list bool :=
+  match cs with
+  | CNil => []
+  | CSome a r => orb_lists (expl_arg_deep a) (expl_cases_deep r)
+  | CNone r => expl_cases_deep r
+  end.
+Definition expl_arg (a : arg) : list bool :=
+  if gen_nested_meta then expl_arg_deep a else match a with ASw cs => explicit_list cs | AVal _ => [] end.
 Definition meta_of (args : list arg) : list bool :=
-  fold_left (fun acc a => match a with ASw cs => orb_lists acc (explicit_list cs) | AVal _ => acc end) args [].
+  fold_left (fun acc a => orb_lists acc (expl_arg a)) args [].
 
 (* explicit_case_bitmasks: [start, stop) ranges between consecutive explicit positions *)
 Fixpoint ranges_from (expl : list bool) (i : nat) (start : option nat) : list (nat * nat) :=
